@@ -233,18 +233,70 @@ def sign_encrypt_sources(ctx, cg):
     R.rule("C18-D1e uuid4 only names the plugin module", 2, "uuid4().hex is used only to build the sys.modules key")
     for m, q in (("suit_generator.cmd_sign", "_import_signer"), ("suit_generator.cmd_encrypt", "_import_encryptor")):
         f = repo.func(m, q)
-        ok = True
-        names = set()
+        seeds = {x.id for n in ast.walk(f.node) if isinstance(n, ast.Assign) and any(
+            isinstance(c, ast.Call) and isinstance(c.func, (ast.Attribute, ast.Name)) and ast.unparse(c.func).split(".")[-1] == "uuid4" for c in ast.walk(n.value))
+            for t in n.targets for x in ast.walk(t) if isinstance(x, ast.Name)}
+        direct = [c for n in ast.walk(f.node) if not isinstance(n, ast.Assign) for c in ast.iter_child_nodes(n)
+                  if isinstance(c, ast.Call) and ast.unparse(c.func).split(".")[-1] == "uuid4" and not any(
+                      isinstance(a_, ast.Assign) and any(x is c for x in ast.walk(a_.value)) for a_ in ast.walk(f.node))]
+        bad = _name_only_uses(repo, f, seeds, 0)
+        n_uses = len([n for n in ast.walk(f.node) if isinstance(n, ast.Name) and n.id in seeds and isinstance(n.ctx, ast.Load)])
+        R.check("C18-D1e uuid4 only names the plugin module", not bad and not direct and len(seeds) >= 1 and n_uses >= 1, ctx.fq(f), mod=f.module,
+                node=(bad[0][0] if bad else f.node), function=ctx.fq(f),
+                expected="the random suffix only builds the module name, which is used as the name of the import spec and as the sys.modules key",
+                found=(bad[0][1] if bad else ("uuid4() used outside an assignment of the module name" if direct else f"{len(seeds)} names, {n_uses} uses")))
+
+
+def _name_only_uses(repo, f, tainted, depth):
+    """[(node, what)] uses of the tainted names (values derived from uuid4) in f that are anything else than: building another string
+    (which becomes tainted), the name argument of importlib's spec_from_file_location, a key of sys.modules, an argument of a logging
+    call, or the argument of a module function whose parameter is itself used only in these ways."""
+    tainted = set(tainted)
+    changed = True
+    while changed:
+        changed = False
         for n in ast.walk(f.node):
-            if isinstance(n, ast.Assign) and "uuid4" in ast.unparse(n.value):
-                names |= {x.id for t in n.targets for x in ast.walk(t) if isinstance(x, ast.Name)}
-        uses = [n for n in ast.walk(f.node) if isinstance(n, ast.Name) and n.id in names and isinstance(n.ctx, ast.Load)]
-        for u in uses:
-            calls = [c for c in ast.walk(f.node) if isinstance(c, ast.Call) and any(x is u for x in c.args)]
-            if not calls or not all(ast.unparse(c.func) == "_import_module_from_path" and c.args[0] is u for c in calls):
-                ok = False
-        R.check("C18-D1e uuid4 only names the plugin module", ok and len(names) == 1 and len(uses) == 1, ctx.fq(f), mod=f.module, node=f.node,
-                function=ctx.fq(f), expected="module_name = prefix + uuid4().hex; _import_module_from_path(module_name, …)", found=f"{len(uses)} uses")
+            if isinstance(n, ast.Assign) and isinstance(n.value, (ast.BinOp, ast.JoinedStr, ast.Name)) and any(
+                    isinstance(x, ast.Name) and x.id in tainted for x in ast.walk(n.value)):
+                for t in n.targets:
+                    if isinstance(t, ast.Name) and t.id not in tainted:
+                        tainted.add(t.id)
+                        changed = True
+    par = parents_of(f.node)
+    bad = []
+    for u in ast.walk(f.node):
+        if not (isinstance(u, ast.Name) and u.id in tainted and isinstance(u.ctx, ast.Load)):
+            continue
+        p_ = par.get(u)
+        # inside a string construction that is assigned to a (tainted) name
+        q_ = p_
+        while isinstance(q_, (ast.BinOp, ast.JoinedStr, ast.FormattedValue)):
+            q_ = par.get(q_)
+        if isinstance(q_, ast.Assign) and all(isinstance(t, ast.Name) and t.id in tainted for t in q_.targets):
+            continue
+        if isinstance(p_, ast.Assign) and p_.value is u and all(isinstance(t, ast.Name) and t.id in tainted for t in p_.targets):
+            continue
+        if isinstance(p_, ast.Subscript) and p_.slice is u and ast.unparse(p_.value) == "sys.modules":
+            continue
+        if isinstance(p_, ast.Call) and any(x is u for x in p_.args):
+            fn = ast.unparse(p_.func)
+            if fn.split(".")[-1] == "spec_from_file_location" and p_.args[0] is u:
+                continue
+            if fn.split(".")[-1] in ("debug", "info", "warning", "error", "exception", "log"):
+                continue
+            r = repo.resolve_expr(f.module, p_.func) if isinstance(p_.func, (ast.Name, ast.Attribute)) else None
+            if r and r[0] == "func" and depth < 3:
+                callee = r[1]
+                idx = [i for i, x in enumerate(p_.args) if x is u][0]
+                params = callee.params()
+                if idx < len(params):
+                    sub = _name_only_uses(repo, callee, {params[idx]}, depth + 1)
+                    if not sub:
+                        continue
+                    bad.extend(sub)
+                    continue
+        bad.append((u, f"{u.id} (derived from uuid4) is used in {ast.unparse(p_)[:80]}"))
+    return bad
 
 
 def shared_state(ctx):
@@ -304,8 +356,11 @@ def shared_state(ctx):
                     elif r and r[0] == "const" and base.id not in {a.arg for a in f.node.args.args} and not _is_local(f, base.id):
                         bad.append((n, f"store into module-level object {base.id}: {ast.unparse(t)[:60]}"))
                     elif r and r[0] == "ext" and r[1] == "sys" and isinstance(outer, ast.Attribute) and outer.attr == "modules":
-                        if f.name != "_import_module_from_path":
-                            bad.append((n, "sys.modules written outside the plugin import helper"))
+                        # the plugin import idiom: the module object created from the import spec is registered under its name
+                        mods = {t_.id for a_ in ast.walk(f.node) if isinstance(a_, ast.Assign) and isinstance(a_.value, ast.Call)
+                                and ast.unparse(a_.value.func).split(".")[-1] == "module_from_spec" for t_ in a_.targets if isinstance(t_, ast.Name)}
+                        if not (isinstance(n, ast.Assign) and isinstance(n.value, ast.Name) and n.value.id in mods):
+                            bad.append((n, "sys.modules written outside the plugin import idiom (sys.modules[name] = module_from_spec(spec))"))
                     elif r and r[0] == "ext" and not _is_local(f, base.id) and base.id not in {a.arg for a in f.node.args.args}:
                         # yaml.Dumper.ignore_aliases = ... / json.encoder.X = ...: configuration of a library object lives for the whole process
                         bad.append((n, f"store into an object of an imported library ({r[1]}): {ast.unparse(t)[:60]} - changes every later use in the process"))
